@@ -32,7 +32,7 @@ package resolvers
 
 //@ func repoResolver.AllBugs$2
 //@   props C20
-//@   nopanic
+//@   nopanic index slice makeslice typeassert
 //@   requires [edges-non-nil] forall k int :: { lazyBugEdges[k] } 0 <= k && k < len(lazyBugEdges) ==> lazyBugEdges[k] != nil
 //@   ensures [keeps-cursors] result1 == nil ==> result != nil && len(result.Edges) == len(lazyBugEdges) && (forall k int :: { result.Edges[k] } 0 <= k && k < len(lazyBugEdges) ==> result.Edges[k] != nil && result.Edges[k].Cursor == old(lazyBugEdges[k].Cursor))
 //@   ensures [keeps-info]    result1 == nil ==> result.PageInfo == info && result.TotalCount == totalCount
@@ -64,7 +64,7 @@ package resolvers
 
 //@ func repoResolver.AllIdentities$2
 //@   props C20
-//@   nopanic
+//@   nopanic index slice makeslice typeassert
 //@   requires [edges-non-nil] forall k int :: { lazyIdentityEdges[k] } 0 <= k && k < len(lazyIdentityEdges) ==> lazyIdentityEdges[k] != nil
 //@   ensures [keeps-cursors] result1 == nil ==> result != nil && len(result.Edges) == len(lazyIdentityEdges) && (forall k int :: { result.Edges[k] } 0 <= k && k < len(lazyIdentityEdges) ==> result.Edges[k] != nil && result.Edges[k].Cursor == old(lazyIdentityEdges[k].Cursor))
 //@   ensures [keeps-info]    result1 == nil ==> result.PageInfo == info && result.TotalCount == totalCount
